@@ -2,11 +2,17 @@
 ObserveTrace.tla) to the result classes of valjean.gavroche and the representers of valjean.javert.
 
 spec -> code : every operation sequence TLC generates from Observe.tla (-dump: all sequences up to the bound,
-               -simulate: longer ones) is executed on a freshly evaluated real result of every kind (equal,
-               approx-equal, Student, Bonferroni, Holm, chi2, metadata, stats-tasks, stats-tests,
-               stats-by-labels, failed; passing and failing inputs); after every operation a deep snapshot
-               (verdict, recorded statistics, test parameters, dataset bytes) is compared with the abstract state of
-               the TLC state, which never changes.
+               -simulate: longer ones) is executed on a fresh real result of every kind (equal, approx-equal,
+               Student, Bonferroni, Holm, chi2, metadata, stats-tasks, stats-tests, stats-by-labels, failed,
+               external; passing and failing inputs) obtained in every way TLC enumerates (`origin`: returned by
+               evaluate(), constructed directly from the recorded statistics with the optional arguments of the
+               result class left to their documented defaults, loaded back from a pickle); after every operation
+               a deep snapshot (verdict, every recorded attribute, the pickle, test parameters, dataset bytes) is
+               compared with the abstract state of the TLC state, which never changes.
+               Every operation NAME of the model stands for the whole family of public read-only calls of that
+               sort: explicit lists for the accessors the classes document, introspection (public properties and
+               methods without required argument, explicit deny list / argument table) for the rest, every
+               representer class of valjean.javert for the representations.
 design level : ObserveImpl.tla models the hidden state of the summaries (key set of the defaultdict behind
                `classify`); TLC checks that it refines Observe when the counting helper does not insert, and --
                negative self-test -- refutes the refinement for the inserting look-up found in the code; the
@@ -16,10 +22,12 @@ code -> spec : seeded random longer sequences are executed, the abstract state r
                and the batch of traces is walked by TLC as behaviours of Observe (ObserveTrace.tla).
 """
 import copy
+import inspect
 import json
 import os
 import pickle
 import zlib
+from concurrent.futures import ThreadPoolExecutor
 from collections import OrderedDict
 
 import numpy as np
@@ -33,11 +41,13 @@ TRACE = os.path.join(tlc.SPECS, 'ObserveTrace.tla')
 MODULE = 'conf_observe'
 
 KINDS = ['equal', 'approx', 'student', 'bonferroni', 'holm', 'chi2', 'metadata', 'stats-tasks', 'stats-tests',
-         'stats-bylabels', 'failed']
+         'stats-bylabels', 'failed', 'external']
 ALWAYS_BAD = ['failed']
 CLASSIFIED = ['stats-tasks', 'stats-tests']
-PLAIN_OPS = ['bool', 'oracles', 'counts', 'fingerprint', 'copy', 'pickle', 'reeval']
+ORIGINS = ['evaluate', 'direct', 'unpickled']      # how the result object is obtained, see obtain()
+PLAIN_OPS = ['bool', 'oracles', 'counts', 'data', 'fingerprint', 'copy', 'pickle', 'reeval']
 VERB_OPS = ['table', 'plot', 'full', 'rst']
+DRAW_OPS = ['draw']      # representation drawn by matplotlib: expensive, kept out of the exhaustive alphabets
 NOVERB = 9
 
 
@@ -116,7 +126,61 @@ def build(kind, good):
         return TestStatsTestsByLabels(name='stats-bylabels', description='labels', task_results=trs, by_labels=('day',)).evaluate()
     if kind == 'failed':
         return TestResultFailed(TestEqual(ref, other, name='failed', description='raises'), 'boom: division by zero')
+    if kind == 'external':
+        from valjean.javert.test_external import TestExternal
+        from valjean.javert.templates import TableTemplate, PlotTemplate, TextTemplate, CurveElements, SubPlotElements
+        table = TableTemplate(ref.bins['e'][:-1].copy(), ref.value.ravel()[:len(ref.bins['e']) - 1].copy(), other.value.ravel()[:len(ref.bins['e']) - 1].copy(),
+                              headers=['e', 'ref', 'other'], highlights=[np.zeros(len(ref.bins['e']) - 1, dtype=bool)] * 2 + [np.array([True] + [False] * (len(ref.bins['e']) - 2))])
+        curve = CurveElements(values=np.array([1.0, 4.0, 2.0]), bins=OrderedDict([('x', np.array([0.0, 1.0, 2.0, 3.0]))]), legend='user curve',
+                              errors=np.array([0.1, 0.2, 0.1]))
+        plot = PlotTemplate(subplots=[SubPlotElements(curves=[curve], axnames=['x', 'user quantity'])])
+        text = TextTemplate('The user ran this comparison elsewhere.\n\n')
+        return TestExternal(text, table, plot, name='external', description='user-defined', success=bool(good)).evaluate()
     raise ValueError(kind)
+
+
+class CannotConstruct(Exception):
+    """The constructor of the result class cannot be fed from the recorded attributes of an evaluated result."""
+
+
+def construct_directly(res):
+    """The same result built by calling its class directly: every required parameter of the constructor receives the
+    attribute of the evaluated result recorded under the parameter's name, every OPTIONAL parameter (one with a
+    documented default) is left out."""
+    cls = type(res)
+    have = vars(res)
+    kwargs = {}
+    for par in list(inspect.signature(cls.__init__).parameters.values())[1:]:
+        if par.kind in (par.VAR_POSITIONAL, par.VAR_KEYWORD) or par.default is not par.empty:
+            continue
+        if par.name not in have:
+            raise CannotConstruct('%s.__init__ parameter %r is not an attribute of the evaluated result' % (cls.__name__, par.name))
+        kwargs[par.name] = have[par.name]
+    return cls(**kwargs)
+
+
+def same_object(res, other):
+    """The two results are the same class holding the very same attribute objects: everything done to one is what would
+    be done to the other (the sequence need not be executed twice)."""
+    va, vb = vars(res), vars(other)
+    return type(res) is type(other) and va.keys() == vb.keys() and all(va[k] is vb[k] for k in va)
+
+
+def derive(res, origin):
+    """The result as obtained the `origin` way from a fresh evaluation.  Returns (result, redundant): redundant is True
+    when it is indistinguishable from the evaluated one (same class, same attribute objects)."""
+    if origin == 'evaluate':
+        return res, False
+    if origin == 'direct':
+        made = construct_directly(res)
+        return made, same_object(made, res)
+    if origin == 'unpickled':
+        return pickle.loads(pickle.dumps(res)), False
+    raise ValueError(origin)
+
+
+def obtain(kind, good, origin='evaluate'):
+    return derive(build(kind, good), origin)
 
 
 # ---------------------------------------------------------------------------------------------
@@ -171,12 +235,71 @@ def _stats(res, depth=0):
     return tuple(out)
 
 
-def snapshot(res, read_verdict=True):
-    """The verdict is read FIRST, so that a bool() that edits the result shows up in the same snapshot; the baseline
-    of a sequence is taken with read_verdict=False, before anything has looked at the result."""
+def structure(res):
+    """Structural digest of the live object: (recorded statistics = every attribute but the test, inputs = the test with
+    its parameters and datasets + its fingerprint).  Reads attributes only; does not read the verdict."""
     from valjean.fingerprint import fingerprint
-    verdict = bool(res) if read_verdict else None
-    return dict(verdict=verdict, stats=_stats(res), data=(fingerprint(res.test), _dig(res.test)))
+    return _stats(res), (fingerprint(res.test), _dig(res.test))
+
+
+def _pickled(res):
+    try:
+        return pickle.dumps(res)
+    except Exception:   # pylint: disable=broad-except
+        return None
+
+
+SAME = ('pickle-as-baseline',)
+
+
+class Tracker:
+    """Numbers the abstract states seen during one operation sequence; 0 = the state of the untouched result.
+
+    The projection of a result is  verdict, stats = (digest of every recorded attribute, digest of what its pickle loads
+    back to), data = (digest of the test / datasets + fingerprint, the same of what the pickle loads back to).
+    Fast path: when the pickle of the result is byte-for-byte the pickle taken from the untouched result, the whole
+    projection is the untouched one; the structural digests are computed when the bytes differ (a changed byte is not
+    yet a changed statistic: dictionary order, an empty class added by a cache ...) and, whatever the bytes, at the
+    last event of a sequence (state a custom pickling could hide)."""
+
+    def __init__(self, res):
+        base = structure(res)                 # before anything, the pickling below included, has looked at the result
+        self.bytes0 = _pickled(res)
+        self._loaded0 = None
+        self.seen = {'stats': [(base[0], SAME)], 'data': [(base[1], SAME)]}
+
+    def _number(self, what, value):
+        lst = self.seen[what]
+        for i, v in enumerate(lst):
+            if v == value:
+                return i
+        lst.append(value)
+        return len(lst) - 1
+
+    def _loaded(self, data):
+        try:
+            return structure(pickle.loads(data))
+        except Exception as ex:   # pylint: disable=broad-except
+            return (('unloadable', type(ex).__name__),) * 2
+
+    def look(self, obj, thorough=False, read_verdict=True):
+        """(verdict, stats number, data number) of `obj` (the live result or a duplicate of it).  The verdict is read
+        FIRST, so that a bool() that edits the result shows up in the same observation."""
+        verdict = bool(obj) if read_verdict else None
+        data = _pickled(obj)
+        same_bytes = data is not None and data == self.bytes0
+        if same_bytes and not thorough:
+            return verdict, 0, 0
+        live = structure(obj)
+        via = (SAME, SAME)
+        if not same_bytes and data is not None and self.bytes0 is not None:
+            if self._loaded0 is None:
+                self._loaded0 = self._loaded(self.bytes0)
+            got = self._loaded(data)
+            via = tuple(SAME if got[k] == self._loaded0[k] else ('pickle-loads-to', got[k]) for k in (0, 1))
+        elif (data is None) != (self.bytes0 is None):
+            via = (('picklable', data is not None),) * 2
+        return verdict, self._number('stats', (live[0], via[0])), self._number('data', (live[1], via[1]))
 
 
 def real_keys(res, kind):
@@ -192,9 +315,66 @@ def real_keys(res, kind):
 # ---------------------------------------------------------------------------------------------
 # the read-only operations
 
-def apply_op(res, kind, op, verb):
-    """Apply one read-only operation; returns the duplicate produced (copy / pickle / reeval) or None."""
-    from valjean.javert.representation import Representation, FullRepresenter, FullTableRepresenter, PlotRepresenter
+# Introspection of the public interface: every public property is read, every public method that can be called without
+# argument is called (iterables consumed), methods with required parameters only when ARGS says what to pass (arguments
+# taken from the result itself, never mutated by contract).  DENY: names that are not read-only operations of the object.
+RESULT_DENY = frozenset()
+TEST_DENY = frozenset({'evaluate'})          # evaluating again is the operation `reeval`
+ARGS = {
+    'test_alpha': lambda res: [(t,) for t in getattr(res, 'tstud', ())],       # TestResultStudent.test_alpha(tstud)
+}
+ORACLES = ('oracles', 'test_pvalue', 'test_alpha')
+
+
+def _consume(value):
+    if inspect.isgenerator(value) or isinstance(value, (map, filter, zip)):
+        return list(value)
+    return value
+
+
+def read_members(obj, deny=frozenset(), only=None):
+    """Read every public member of `obj` (see above); returns the names read."""
+    done = []
+    cls = type(obj)
+    for name in sorted(dir(cls)):
+        if name.startswith('_') or name in deny or (only is not None and name not in only):
+            continue
+        static = inspect.getattr_static(cls, name)
+        if isinstance(static, property) or not callable(getattr(obj, name)):
+            getattr(obj, name)
+            done.append(name)
+            continue
+        bound = getattr(obj, name)
+        try:
+            required = [q for q in inspect.signature(bound).parameters.values()
+                        if q.default is q.empty and q.kind not in (q.VAR_POSITIONAL, q.VAR_KEYWORD)]
+        except (TypeError, ValueError):
+            continue
+        if not required:
+            _consume(bound())
+            done.append(name)
+        elif name in ARGS:
+            for args in ARGS[name](obj):
+                _consume(bound(*args))
+            done.append(name)
+    return done
+
+
+def _status_first(classify):
+    """Success member(s) of the enum(s) the keys of a classification dictionary belong to."""
+    from valjean.cosette.task import TaskStatus
+    from valjean.gavroche.diagnostics.stats import TestOutcome
+    firsts = []
+    for enum, first in ((TaskStatus, TaskStatus.DONE), (TestOutcome, TestOutcome.SUCCESS)):
+        if any(isinstance(k, enum) for k in classify):
+            firsts.append(first)
+    return firsts
+
+
+def apply_op(res, kind, op, verb, origin='evaluate'):
+    """Apply one read-only operation -- the whole family of calls the name stands for; returns the duplicate produced
+    (copy / pickle / reeval) or None."""
+    from valjean.javert import representation as rp, table_repr, plot_repr
     from valjean.javert.verbosity import Verbosity
     from valjean.javert.rst import Rst
     from valjean.fingerprint import fingerprint
@@ -202,112 +382,139 @@ def apply_op(res, kind, op, verb):
         bool(res)
         if res:
             pass
+        _ = not res
+        res.__bool__()
     elif op == 'oracles':
-        if hasattr(res, 'oracles'):
-            list(res.oracles())
-        if hasattr(res, 'test_pvalue'):
-            res.test_pvalue()
+        read_members(res, RESULT_DENY, only=ORACLES)
     elif op == 'counts':
-        from valjean.gavroche.diagnostics.stats import classification_counts, TestOutcome
-        from valjean.cosette.task import TaskStatus
-        if kind == 'stats-tasks':
-            classification_counts(res.classify, TaskStatus.DONE)
-        elif kind == 'stats-tests':
-            classification_counts(res.classify, TestOutcome.SUCCESS)
-        elif kind == 'stats-bylabels':
-            res.nb_missing_labels()
-        for attr in ('nb_rejected', 'rejected_proportion', 'chi2_per_ndf', 'sort_ordering'):
-            if hasattr(res, attr):
-                getattr(res, attr)
-        for meth in ('per_key', 'only_failed_comparisons'):
-            if hasattr(res, meth):
-                getattr(res, meth)()
+        from valjean.gavroche.diagnostics.stats import classification_counts
+        classify = getattr(res, 'classify', None)
+        if isinstance(classify, dict):
+            for first in _status_first(classify):
+                classification_counts(classify, first)
+            for status in list(classify):
+                status in classify, classify.get(status), len(classify[status])      # pylint: disable=expression-not-assigned
+        read_members(res, RESULT_DENY | frozenset(ORACLES))
+        vars(res), repr(res), str(res), res == res, hash(res)      # pylint: disable=expression-not-assigned,comparison-with-itself
+    elif op == 'data':
+        test = res.test
+        b''.join(bytes(chunk) for chunk in test.data())
+        read_members(test, TEST_DENY)
+        repr(test), str(test)      # pylint: disable=expression-not-assigned
+        for dset in [getattr(test, 'dsref', None)] + list(getattr(test, 'datasets', ())):
+            if dset is not None:
+                str(dset), repr(dset)      # pylint: disable=expression-not-assigned
     elif op == 'table':
-        Representation(FullTableRepresenter(), verbosity=Verbosity(verb))(res)
+        level = Verbosity(verb)
+        rp.Representation(rp.FullTableRepresenter(), verbosity=level)(res)
+        rp.TableRepresenter()(res, level)
+        fun = getattr(table_repr, 'repr_' + type(res).__name__.lower(), None)
+        if fun is not None:
+            fun(res, level)
     elif op == 'plot':
-        Representation(PlotRepresenter(), verbosity=Verbosity(verb))(res)
+        level = Verbosity(verb)
+        rp.Representation(rp.PlotRepresenter(), verbosity=level)(res)
+        rp.FullPlotRepresenter()(res, level)
+        rp.PlotRepresenter(post='none')(res, level)
+        fun = getattr(plot_repr, 'repr_' + type(res).__name__.lower(), None)
+        if fun is not None:
+            fun(res, level)
     elif op == 'full':
-        Representation(FullRepresenter(), verbosity=Verbosity(verb))(res)
+        level = Verbosity(verb)
+        rp.Representation(rp.FullRepresenter(), verbosity=level)(res)
+        rp.Representation(rp.FullRepresenter(), verbosity=lambda _result: level)(res)
+        rp.Representation(rp.EmptyRepresenter(), verbosity=level)(res)
+        rp.ExternalRepresenter()(res, level)
     elif op == 'rst':
-        Rst(Representation(FullRepresenter(), verbosity=Verbosity(verb))).format_result(res)
+        rst = Rst(rp.Representation(rp.FullRepresenter(), verbosity=Verbosity(verb)))
+        '\n'.join(str(line) for line in rst.format_result(res))
+    elif op == 'draw':
+        import matplotlib.pyplot as plt
+        from valjean.javert.mpl import MplPlot
+        from valjean.javert.templates import PlotTemplate
+        for template in rp.Representation(rp.FullRepresenter(), verbosity=Verbosity(verb))(res):
+            if isinstance(template, PlotTemplate):
+                fig = MplPlot(template).draw()[0]
+                plt.close(fig)
     elif op == 'fingerprint':
         fingerprint(res.test)
     elif op == 'copy':
         copy.copy(res)
         return copy.deepcopy(res)
     elif op == 'pickle':
+        pickle.loads(pickle.dumps(res, protocol=2))
         return pickle.loads(pickle.dumps(res))
     elif op == 'reeval':
         if kind == 'failed':
             return copy.deepcopy(res)        # a failed evaluation has no evaluate() of its own to repeat
-        return res.test.evaluate()
+        return derive(res.test.evaluate(), origin)[0]       # the test evaluated again, the result obtained the same way
     else:
         raise ValueError('unknown operation %r' % (op,))
     return None
 
 
-def run_sequence(kind, good, ops):
-    """Execute evaluate + ops on a fresh result.  Returns the list of events
+class Redundant(Exception):
+    """The result obtained this way is the very object graph evaluate() returned: covered by the 'evaluate' origin."""
+
+
+def run_sequence(kind, good, ops, origin='evaluate', skip_redundant=False):
+    """Obtain a fresh result and apply ops.  Returns the list of events
     dict(op, verb, verdict, stats, data, dupVerdict, dupStats, dupData, keys, exc) with digest NUMBERS
-    (0 = value right after the evaluation)."""
-    res = build(kind, good)
-    untouched = snapshot(res, read_verdict=False)
-    seen = {'stats': [untouched['stats']], 'data': [untouched['data']]}
-
-    def number(what, value):
-        lst = seen[what]
-        for i, v in enumerate(lst):
-            if v == value:
-                return i
-        lst.append(value)
-        return len(lst) - 1
-
-    first = snapshot(res)
-    events = [dict(op='evaluate', verb=NOVERB, verdict=first['verdict'], stats=number('stats', first['stats']),
-                   data=number('data', first['data']), dupVerdict=first['verdict'], dupStats=0, dupData=0,
-                   keys=real_keys(res, kind), exc='')]
-    dup = (first['verdict'], 0, 0)
-    for op in ops:
+    (0 = value of the untouched result)."""
+    res, redundant = obtain(kind, good, origin)
+    if redundant and skip_redundant:
+        raise Redundant()
+    tracker = Tracker(res)
+    first = tracker.look(res, thorough=not ops)
+    events = [dict(op='evaluate', verb=NOVERB, verdict=first[0], stats=first[1], data=first[2],
+                   dupVerdict=first[0], dupStats=0, dupData=0, keys=real_keys(res, kind), exc='')]
+    dup = (first[0], 0, 0)
+    for n, op in enumerate(ops):
         exc = ''
         try:
-            made = apply_op(res, kind, op['op'], op['verb'])
+            made = apply_op(res, kind, op['op'], op['verb'], origin)
             if made is not None:
-                s = snapshot(made)
-                dup = (s['verdict'], number('stats', s['stats']), number('data', s['data']))
+                dup = tracker.look(made)
         except Exception as ex:   # pylint: disable=broad-except
             exc = '%s: %s' % (type(ex).__name__, ex)
-        now = snapshot(res)
-        events.append(dict(op=op['op'], verb=op['verb'], verdict=now['verdict'], stats=number('stats', now['stats']),
-                           data=number('data', now['data']), dupVerdict=dup[0], dupStats=dup[1], dupData=dup[2],
-                           keys=real_keys(res, kind), exc=exc))
+        now = tracker.look(res, thorough=n == len(ops) - 1)
+        events.append(dict(op=op['op'], verb=op['verb'], verdict=now[0], stats=now[1], data=now[2],
+                           dupVerdict=dup[0], dupStats=dup[1], dupData=dup[2], keys=real_keys(res, kind), exc=exc))
     return events
 
 
-def judge(kind, good, events):
+def _suffix(origin):
+    return '' if origin == 'evaluate' else '/' + origin
+
+
+def judge(kind, good, events, origin='evaluate'):
     """First event that is not a stuttering step of the abstract state TLC holds for this behaviour
-    (abs = AbsOf(kind, good) in every state): None or (event index, key, text)."""
+    (abs = AbsOf(kind, origin, good) in every state): None or (event index, key, text)."""
+    how = {'evaluate': 'the evaluation', 'direct': 'the direct construction', 'unpickled': 'the unpickling'}[origin]
     for n, ev in enumerate(events):
         what = None
         if ev['verdict'] != good:
             what = ('verdict-changed' if n > 0 else 'verdict-wrong', 'bool(result) is %r, was %r' % (ev['verdict'], good))
         elif ev['stats'] != 0:
-            what = ('statistics-changed', 'the recorded statistics differ from those right after the evaluation')
+            what = ('statistics-changed', 'the recorded statistics (attributes of the result / what its pickle loads back to) differ from '
+                    'those right after %s' % how)
         elif ev['data'] != 0:
-            what = ('inputs-changed', 'the test parameters / datasets differ from those right after the evaluation')
+            what = ('inputs-changed', 'the test parameters / datasets differ from those right after %s' % how)
         elif (ev['dupVerdict'], ev['dupStats'], ev['dupData']) != (good, 0, 0):
             what = ({'copy': 'copy-differs', 'pickle': 'pickle-differs', 'reeval': 'not-repeatable'}.get(ev['op'], 'duplicate-differs'),
                     'the %s of the result has verdict %r / statistics #%d / inputs #%d' % (ev['op'], ev['dupVerdict'], ev['dupStats'], ev['dupData']))
         if what:
             opname = ev['op'] + ('' if ev['verb'] == NOVERB else '(verbosity %d)' % ev['verb'])
+            key = 'C13/%s/%s%s' % (what[0], kind, _suffix(origin))
             if n == 0:
-                return n, 'C13/%s/%s' % (what[0], kind), 'on the first reading of the verdict right after the evaluation: %s' % what[1]
-            return n, 'C13/%s/%s' % (what[0], kind), 'after %s (operation %d of %s): %s' % (
-                opname, n, [e['op'] for e in events[1:]], what[1])
+                return n, key, 'on the first reading of the verdict right after %s: %s' % (how, what[1])
+            return n, key, 'result obtained by %s, after %s (operation %d of %s): %s' % (
+                how[4:], opname, n, [e['op'] for e in events[1:]], what[1])
     return None
 
 
-def to_trace(tid, kind, good, events):
-    return dict(id=tid, kind=kind, good=good,
+def to_trace(tid, kind, good, events, origin='evaluate'):
+    return dict(id=tid, kind=kind, origin=origin, good=good,
                 events=[{k: ev[k] for k in ('op', 'verb', 'verdict', 'stats', 'data', 'dupVerdict', 'dupStats', 'dupData')} for ev in events])
 
 
@@ -349,15 +556,16 @@ def corrupted_twins(batch):
 def replay_case(case):
     """Re-run an operation sequence on a fresh result and let TLC (ObserveTrace) judge the recorded trace."""
     FLAVOUR[0] = case.get('flavour', '1d')
+    origin = case.get('origin', 'evaluate')
     try:
-        events = run_sequence(case['kind'], case['good'], case['ops'])
+        events = run_sequence(case['kind'], case['good'], case['ops'], origin)
     finally:
         FLAVOUR[0] = '1d'
     wd = tlc.workdir('c13r')
-    _, bad = validate_batch([to_trace(1, case['kind'], case['good'], events)], wd, 'replay')
+    _, bad = validate_batch([to_trace(1, case['kind'], case['good'], events, origin)], wd, 'replay')
     if bad:
         n = min(b[1] for b in bad) - 1
-        j = judge(case['kind'], case['good'], events)
+        j = judge(case['kind'], case['good'], events, origin)
         return False, 'ObserveTrace rejects event %d (%s), clauses %s: %s' % (
             n, events[n]['op'], sorted(b[2] for b in bad if b[1] == n + 1), j[2] if j else events[n])
     return True, 'trace of %d operations accepted by ObserveTrace' % (len(events) - 1)
@@ -365,33 +573,50 @@ def replay_case(case):
 
 # ---------------------------------------------------------------------------------------------
 
-def _consts(verbs, maxlen, kinds=None, **kw):
-    d = dict(Kinds=frozenset(kinds or KINDS), AlwaysBad=frozenset(ALWAYS_BAD), PlainOps=frozenset(PLAIN_OPS),
-             VerbOps=frozenset(VERB_OPS), Verbs=frozenset(verbs), MaxLen=maxlen)
+def _consts(verbs, maxlen, kinds=None, origins=None, verbops=None, **kw):
+    d = dict(Kinds=frozenset(kinds or KINDS), Origins=frozenset(origins or ORIGINS), AlwaysBad=frozenset(ALWAYS_BAD),
+             PlainOps=frozenset(PLAIN_OPS), VerbOps=frozenset(verbops or VERB_OPS), Verbs=frozenset(verbs), MaxLen=maxlen)
     d.update(kw)
     return d
 
 
-def _impl_consts(verbs, maxlen, inserting, kinds=None):
-    return _consts(verbs, maxlen, kinds, Classified=frozenset(CLASSIFIED), Inserting=inserting)
+def _impl_consts(verbs, maxlen, inserting, kinds=None, origins=None):
+    return _consts(verbs, maxlen, kinds, origins, Classified=frozenset(CLASSIFIED), Inserting=inserting)
 
 
 def _ops_of(hist):
     return [dict(op=o['op'], verb=o['verb']) for o in hist]
 
 
-def _hkey(kind, good, ops):
-    return (kind, bool(good), tuple((o['op'], o['verb']) for o in ops))
+def _hkey(kind, good, ops, origin=None):
+    key = (kind, bool(good), tuple((o['op'], o['verb']) for o in ops))
+    return key if origin is None else key + (origin,)
 
 
-def _impl_predictions(wd, name, verbs, maxlen, inserting, ctx):
-    """ObserveImpl dump for the classified kinds: (kind, good, ops) -> predicted key set after the last op."""
-    cfg = tlc.write_cfg(os.path.join(wd, name + '.cfg'), constants=_impl_consts(verbs, maxlen, inserting, CLASSIFIED), deadlock=False)
-    dump = os.path.join(wd, name)
-    res = tlc.run(IMPL, cfg, dump=dump, coverage=False)
-    ctx.tlc(res, 'ObserveImpl/' + name)
-    if not res.ok:
-        raise tlc.MachineryError('ObserveImpl %s: %s' % (name, res.violation))
+class _Later:
+    """TLC runs whose configuration does not depend on anything computed here are started at once, a few at a time, and
+    collected (in a fixed order) when their output is needed: the JVMs work while Python executes the sequences."""
+
+    def __init__(self, parallel=3):
+        self.pool = ThreadPoolExecutor(max_workers=parallel)
+        self.futures = {}
+
+    def start(self, name, module, cfg, **kw):
+        kw.setdefault('workers', 4)
+        self.futures[name] = self.pool.submit(tlc.run, module, cfg, **kw)
+
+    def get(self, name):
+        return self.futures.pop(name).result()
+
+    def close(self):
+        for fut in self.futures.values():
+            fut.cancel()
+        self.pool.shutdown(wait=True)
+
+
+def _read_predictions(dump):
+    """ObserveImpl dump for the classified kinds: (kind, good, ops) -> predicted key set after the last op (the way
+    the summary is obtained does not matter to the dictionary)."""
     pred = {}
     for st in read_dump_fast(dump):
         if st['pc'] == 'ready':
@@ -408,19 +633,29 @@ class _Runner:
         self.fixed_pred = fixed_pred
         self.asis_pred = asis_pred
         self.n = 0
+        self.redundant = 0
         self.raised = {}
+        self.unbuildable = {}
         self.drifted = set()
 
-    def run(self, kind, good, ops, source, flavour='1d'):
+    def run(self, kind, good, ops, source, flavour='1d', origin='evaluate'):
+        """Events of the sequence, or None when the result obtained the `origin` way is the very object graph returned
+        by evaluate() (the same sequence on the 'evaluate' origin is the same execution) or cannot be built that way."""
         ctx = self.ctx
         FLAVOUR[0] = flavour
         try:
-            events = run_sequence(kind, good, ops)
+            events = run_sequence(kind, good, ops, origin, skip_redundant=True)
+        except Redundant:
+            self.redundant += 1
+            return None
+        except CannotConstruct as ex:
+            self.unbuildable.setdefault((kind, origin), str(ex))
+            return None
         finally:
             FLAVOUR[0] = '1d'
         self.n += 1
-        case = dict(kind=kind, good=bool(good), ops=ops, flavour=flavour)
-        j = judge(kind, good, events)
+        case = dict(kind=kind, good=bool(good), ops=ops, flavour=flavour, origin=origin)
+        j = judge(kind, good, events, origin)
         if j:
             ctx.violation(j[1], '%s [%s]' % (j[2], source), case, module=MODULE)
         for ev in events:
@@ -446,10 +681,13 @@ class _Runner:
         return events
 
 
-def random_ops(rng, n):
+def random_ops(rng, n, draw=0.04):
     ops = []
     for _ in range(n):
-        if rng.random() < 0.55:
+        x = rng.random()
+        if x < draw:
+            ops.append(dict(op=rng.choice(DRAW_OPS), verb=rng.randint(0, 5)))
+        elif x < 0.55:
             ops.append(dict(op=rng.choice(VERB_OPS), verb=rng.randint(0, 5)))
         else:
             ops.append(dict(op=rng.choice(PLAIN_OPS), verb=NOVERB))
@@ -457,44 +695,88 @@ def random_ops(rng, n):
 
 
 def run_c13(ctx):
-    ctx.rule('spec->code: every maximal operation sequence of the states dumped by TLC for Observe.tla (all sequences over 7 '
-             'accessor / duplication operations and 4 representations x verbosities, up to the length bound) and the longer ones '
-             'TLC simulates are executed on a freshly evaluated real result of each of the 11 kinds, on passing and on failing '
-             'inputs, with a deep snapshot after every operation compared with the (constant) abstract state of the TLC states. '
-             'design level: ObserveImpl.tla (key set of the defaultdict behind classify) is checked to refine Observe; the '
-             'as-found inserting variant is refuted by TLC and its counterexample replayed.  code->spec: seeded random sequences of '
-             '4-12 operations recorded and walked by TLC through ObserveTrace.tla.  distinct_nontrivial counts distinct '
-             '(kind, inputs, sequence) executions containing at least one representation followed by another operation.')
-    ctx.assume('snapshot = verdict, stored statistics (classifications as names of the non-empty classes), test parameters, dataset '
-               'bytes and fingerprint; attributes added by lazy caches are not part of it; 1-d datasets of 4 bins')
+    ctx.rule('spec->code: every maximal operation sequence of the states dumped by TLC for Observe.tla (all sequences over 8 '
+             'accessor / duplication operations and 4 representations x verbosities, up to the length bound; the matplotlib drawing as a '
+             'fifth representation in a plan of its own) and the longer ones TLC simulates are executed on a fresh real result of each of the '
+             '12 kinds, on passing and on failing inputs, obtained in each of the ways TLC enumerates (evaluate(), direct construction with the '
+             'optional constructor arguments left to their defaults, unpickled; a directly constructed result that is the very object graph '
+             'evaluate() returned is not executed a second time), with a deep snapshot after every operation compared with the (constant) '
+             'abstract state of the TLC states.  An operation name is bound to the whole family of public read-only calls of that sort '
+             '(documented accessors by name, the other public properties / argument-less methods of the result and of its test by '
+             'introspection, all representer classes).  design level: ObserveImpl.tla (key set of the defaultdict behind classify) is '
+             'checked to refine Observe; the as-found inserting variant is refuted by TLC and its counterexample replayed.  code->spec: '
+             'seeded random sequences of 4-12 operations recorded and walked by TLC through ObserveTrace.tla.  distinct_nontrivial counts '
+             'distinct (kind, origin, inputs, sequence) executions containing at least one representation followed by another operation.')
+    ctx.assume('snapshot = verdict, every attribute the result stores (classifications as names of the non-empty classes), what its pickle '
+               'loads back to, test parameters, dataset bytes and fingerprint; 1-d datasets of 4 bins (2-d with an undefined cell in part of '
+               'the random sequences)')
     ctx.assume('an operation that raises is not a change of the result: it is reported as drift, not as a violation')
     wd = tlc.workdir('c13')
     quick = ctx.quick
     verbs_main = [0, 2, 4]
     len_main = ctx.pick(2, 3)
+    depth = ctx.pick(8, 12)
+    nsim = ctx.pick(150, 1500)
 
-    # implementation-level model: predictions of both variants, refinement, negative self-test
-    fixed_pred = _impl_predictions(wd, 'impl-fixed', verbs_main, len_main, False, ctx)
-    asis_pred = _impl_predictions(wd, 'impl-asis', verbs_main, len_main, True, ctx)
+    # ---- every TLC run that does not depend on the executions below is configured and started now
+    later = _Later()
+    only_eval = ['evaluate']
+    for name, inserting in (('impl-fixed', False), ('impl-asis', True)):
+        cfg = tlc.write_cfg(os.path.join(wd, name + '.cfg'), constants=_impl_consts(verbs_main, len_main, inserting, CLASSIFIED, only_eval), deadlock=False)
+        later.start(name, IMPL, cfg, dump=os.path.join(wd, name), coverage=False)
     cfg = tlc.write_cfg(os.path.join(wd, 'refine.cfg'), constants=_impl_consts(range(6), ctx.pick(2, 3), False),
                         invariants=['DeterministicImpl', 'VerdictIsTruthImpl'], properties=['Refines', 'RefinesInit', 'RefinesNext', 'ReadOnlyImpl', 'KeysGrow'], deadlock=False)
-    res = tlc.run(IMPL, cfg, timeout=1500)
+    later.start('refine', IMPL, cfg, timeout=1500, workers=ctx.pick(4, None))
+    cfg = tlc.write_cfg(os.path.join(wd, 'selftest.cfg'), constants=_impl_consts([0, 2], 3, True, CLASSIFIED, only_eval),
+                        properties=['RefinesInit', 'RefinesNext'], deadlock=False)
+    later.start('selftest', IMPL, cfg, coverage=False, workers=1)
+    cfg = tlc.write_cfg(os.path.join(wd, 'witkeys.cfg'), constants=_impl_consts([0, 2], 2, True, CLASSIFIED, only_eval), invariants=['W_KeysInserted'],
+                        deadlock=False)
+    later.start('witkeys', IMPL, cfg, coverage=False)
+    # spec -> code plans: (name, verbosities, length, origins, representations)
+    plans = [('main', verbs_main, len_main, ['evaluate', 'direct'], VERB_OPS),
+             ('allverbs', list(range(6)), ctx.pick(1, 2), ORIGINS, VERB_OPS),
+             ('draw', ctx.pick([1, 4], list(range(6))), 1, ctx.pick(['evaluate'], ORIGINS), DRAW_OPS)]
+    for name, verbs, maxlen, origins, verbops in plans:
+        cfg = tlc.write_cfg(os.path.join(wd, name + '.cfg'), constants=_consts(verbs, maxlen, None, origins, verbops),
+                            invariants=['Deterministic', 'VerdictIsTruth'], properties=['ReadOnly'], deadlock=False)
+        later.start(name, SPEC, cfg, dump=os.path.join(wd, name), timeout=1500, workers=ctx.pick(4, None))
+    for wit in ('W_ReprThenBool', 'W_AllVerbs', 'W_OtherOrigin'):
+        cfg = tlc.write_cfg(os.path.join(wd, wit + '.cfg'), constants=_consts([0, 2, 4], 2, ['equal', 'stats-tasks']), invariants=[wit], deadlock=False)
+        later.start(wit, SPEC, cfg, coverage=False)
+    cfg = tlc.write_cfg(os.path.join(wd, 'sim.cfg'), constants=_consts(range(6), depth, None, ORIGINS, VERB_OPS + DRAW_OPS),
+                        invariants=['Deterministic', 'VerdictIsTruth'], properties=['ReadOnly'], deadlock=False)
+    simprefix = os.path.join(wd, 'simdir', 'beh')
+    os.makedirs(os.path.dirname(simprefix))
+    later.start('sim', SPEC, cfg, simulate=dict(num=nsim, file=simprefix), depth=depth + 2, seed=ctx.seed + 1, coverage=False, workers=1, timeout=1500)
+    try:
+        _run_c13(ctx, wd, later, plans, simprefix, depth, nsim)
+    finally:
+        later.close()
+
+
+def _run_c13(ctx, wd, later, plans, simprefix, depth, nsim):
+    # implementation-level model: predictions of both variants, refinement, negative self-test
+    preds = {}
+    for name in ('impl-fixed', 'impl-asis'):
+        res = later.get(name)
+        ctx.tlc(res, 'ObserveImpl/' + name)
+        if not res.ok:
+            raise tlc.MachineryError('ObserveImpl %s: %s' % (name, res.violation))
+        preds[name] = _read_predictions(os.path.join(wd, name))
+    res = later.get('refine')
     ctx.tlc(res, 'ObserveImpl/refines-Observe')
     if not res.ok:
         raise tlc.MachineryError('ObserveImpl (non-inserting) does not refine Observe: %s\n%s' % (res.violation, res.out[-1500:]))
     tlc.check_coverage(res, ['Evaluate', 'Read'], 'ObserveImpl/refines')
-    cfg = tlc.write_cfg(os.path.join(wd, 'selftest.cfg'), constants=_impl_consts([0, 2], 3, True, CLASSIFIED),
-                        properties=['RefinesInit', 'RefinesNext'], deadlock=False)
-    neg = tlc.run(IMPL, cfg, coverage=False, workers=1)
+    neg = later.get('selftest')
     ctx.tlc(neg, 'ObserveImpl/negative-selftest-inserting')
     if neg.violation != ('property', 'RefinesNext') or not neg.trace:
         raise tlc.MachineryError('negative self-test: TLC did not refute the refinement for the inserting look-up (%s)' % (neg.violation,))
-    cfg = tlc.write_cfg(os.path.join(wd, 'witkeys.cfg'), constants=_impl_consts([0, 2], 2, True, CLASSIFIED), invariants=['W_KeysInserted'],
-                        deadlock=False)
-    if tlc.run(IMPL, cfg, coverage=False).violation != ('invariant', 'W_KeysInserted'):
+    if later.get('witkeys').violation != ('invariant', 'W_KeysInserted'):
         raise tlc.MachineryError('witness W_KeysInserted not reachable in ObserveImpl')
 
-    runner = _Runner(ctx, fixed_pred, asis_pred)
+    runner = _Runner(ctx, preds['impl-fixed'], preds['impl-asis'])
     last = [st for _, st in neg.trace if st and 'hist' in st][-1]
     cex_ops = _ops_of(last['hist'])
     events = runner.run(str(last['kind']), bool(last['good']), cex_ops, 'counterexample of ObserveImpl with the inserting look-up')
@@ -502,65 +784,63 @@ def run_c13(ctx):
                     reproduced_on_code=judge(str(last['kind']), bool(last['good']), events) is not None))
 
     # spec -> code: exhaustive sequences
-    plans = [('main', verbs_main, len_main)]
-    if not quick:
-        plans.append(('allverbs', list(range(6)), 2))
-    else:
-        plans.append(('allverbs', list(range(6)), 1))
     traces = []
-    for name, verbs, maxlen in plans:
-        cfg = tlc.write_cfg(os.path.join(wd, name + '.cfg'), constants=_consts(verbs, maxlen), invariants=['Deterministic', 'VerdictIsTruth'],
-                            properties=['ReadOnly'], deadlock=False)
-        dump = os.path.join(wd, name)
-        res = tlc.run(SPEC, cfg, dump=dump, timeout=1500)
+    for name, _verbs, maxlen, _origins, _verbops in plans:
+        res = later.get(name)
         ctx.tlc(res, 'Observe/' + name)
         if not res.ok:
             raise tlc.MachineryError('Observe.tla %s: %s\n%s' % (name, res.violation, res.out[-1500:]))
         tlc.check_coverage(res, ['Evaluate', 'Read'], 'Observe/' + name)
+        dump = os.path.join(wd, name)
         for st in read_dump_fast(dump):
             if st['pc'] != 'ready' or len(st['hist']) != maxlen:
                 continue
             ops = _ops_of(st['hist'])
-            events = runner.run(st['kind'], bool(st['good']), ops, 'Observe/' + name)
+            if name == 'draw' and ops[0]['op'] not in DRAW_OPS:
+                continue
+            origin = str(st['origin'])
+            events = runner.run(st['kind'], bool(st['good']), ops, 'Observe/' + name, origin=origin)
+            if events is None:
+                continue
             if any(o['op'] in VERB_OPS for o in ops[:-1]):
-                ctx.distinct(_hkey(st['kind'], st['good'], ops))
-            crc = zlib.crc32(json.dumps([st['kind'], st['good'], ops]).encode())
+                ctx.distinct(_hkey(st['kind'], st['good'], ops, origin))
+            crc = zlib.crc32(json.dumps([st['kind'], origin, st['good'], ops]).encode())
             if crc % 1999 == 1:
-                ctx.sample(dict(source='Observe/' + name, kind=st['kind'], good=bool(st['good']), ops=ops,
+                ctx.sample(dict(source='Observe/' + name, kind=st['kind'], origin=origin, good=bool(st['good']), ops=ops,
                                 verdicts=[e['verdict'] for e in events]))
             if crc % 50 == 0:
-                traces.append((st['kind'], bool(st['good']), ops, events))
+                traces.append((st['kind'], bool(st['good']), ops, events, origin))
         os.remove(dump + '.dump')
-    for wit in ('W_ReprThenBool', 'W_AllVerbs'):
-        cfg = tlc.write_cfg(os.path.join(wd, wit + '.cfg'), constants=_consts([0, 2, 4], 2, ['equal', 'stats-tasks']), invariants=[wit], deadlock=False)
-        if tlc.run(SPEC, cfg, coverage=False).violation != ('invariant', wit):
+    for wit in ('W_ReprThenBool', 'W_AllVerbs', 'W_OtherOrigin'):
+        if later.get(wit).violation != ('invariant', wit):
             raise tlc.MachineryError('witness %s not reachable in Observe.tla' % wit)
 
     # spec -> code: longer sequences from TLC's simulator
-    depth = ctx.pick(8, 12)
-    nsim = ctx.pick(150, 1500)
-    cfg = tlc.write_cfg(os.path.join(wd, 'sim.cfg'), constants=_consts(range(6), depth), invariants=['Deterministic', 'VerdictIsTruth'],
-                        properties=['ReadOnly'], deadlock=False)
-    simprefix = os.path.join(wd, 'simdir', 'beh')
-    os.makedirs(os.path.dirname(simprefix))
-    res = tlc.run(SPEC, cfg, simulate=dict(num=nsim, file=simprefix), depth=depth + 2, seed=ctx.seed + 1, coverage=False, workers=1, timeout=1500)
+    res = later.get('sim')
     ctx.tlc(res, 'Observe/simulate')
     if res.violation:
         raise tlc.MachineryError('Observe.tla simulation: %s' % (res.violation,))
-    nsimrun = 0
+    nsimrun = nsimred = 0
     for beh in tlc.read_sim_files(simprefix):
         st = beh[-1][1]
         if st.get('pc') != 'ready' or not st['hist']:
             continue
         ops = _ops_of(st['hist'])
-        events = runner.run(str(st['kind']), bool(st['good']), ops, 'Observe/simulate')
-        ctx.distinct(_hkey(str(st['kind']), st['good'], ops))
+        origin = str(st['origin'])
         nsimrun += 1
+        events = runner.run(str(st['kind']), bool(st['good']), ops, 'Observe/simulate', origin=origin)
+        if events is None:
+            # the directly constructed result is the evaluated one: run the behaviour on it all the same (under its own name)
+            nsimred += 1
+            origin = 'evaluate'
+            events = runner.run(str(st['kind']), bool(st['good']), ops, 'Observe/simulate', origin=origin)
+        ctx.distinct(_hkey(str(st['kind']), st['good'], ops, origin))
         if nsimrun % 10 == 0:
-            traces.append((str(st['kind']), bool(st['good']), ops, events))
+            traces.append((str(st['kind']), bool(st['good']), ops, events, origin))
     if nsimrun < nsim // 2:
         raise tlc.MachineryError('simulation produced only %d behaviours' % nsimrun)
     ctx.count(evaluations=runner.n, traces=runner.n)
+    n_before = runner.n
 
     # code -> spec: random longer sequences + a sample of the above, walked by TLC
     rng = ctx.rng
@@ -569,12 +849,17 @@ def run_c13(ctx):
     for n in range(n_random):
         kind, good = combos[n % len(combos)]
         ops = random_ops(rng, rng.randint(4, 12))
-        flavour = '2d-nan' if (n // len(combos)) % 2 == 1 and kind in ('equal', 'approx', 'student', 'bonferroni', 'holm', 'chi2') else '1d'
-        events = runner.run(kind, good, ops, 'random' if flavour == '1d' else 'random/2d-nan', flavour)
-        traces.append((kind, good, ops, events))
+        origin = ORIGINS[(n // len(combos)) % len(ORIGINS)]
+        flavour = '2d-nan' if (n // (len(combos) * len(ORIGINS))) % 2 == 1 and kind in ('equal', 'approx', 'student', 'bonferroni', 'holm', 'chi2') else '1d'
+        source = 'random' if flavour == '1d' else 'random/2d-nan'
+        events = runner.run(kind, good, ops, source, flavour, origin)
+        if events is None:
+            origin = 'evaluate'
+            events = runner.run(kind, good, ops, source, flavour, origin)
+        traces.append((kind, good, ops, events, origin, flavour))
         if any(o['op'] in VERB_OPS for o in ops[:-1]):
-            ctx.distinct(_hkey(kind, good, ops))
-    batch = [to_trace(tid + 1, k, g, ev) for tid, (k, g, _, ev) in enumerate(traces)]
+            ctx.distinct(_hkey(kind, good, ops, origin))
+    batch = [to_trace(tid + 1, t[0], t[1], t[3], t[4]) for tid, t in enumerate(traces)]
     rejected = set()
     # binding self-test: corrupted twins of recorded traces ride along in the first batch and must be rejected
     twins = corrupted_twins(batch)
@@ -591,19 +876,25 @@ def run_c13(ctx):
         for tid, n, clause in sorted(bad):
             first.setdefault(tid, (n, clause))
         for tid, (n, clause) in sorted(first.items()):
-            kind, good, ops, events = traces[tid - 1]
+            kind, good, ops, events, origin = traces[tid - 1][:5]
+            flavour = (traces[tid - 1] + ('1d',))[5]
             rejected.add(tid)
-            j = judge(kind, good, events)
+            j = judge(kind, good, events, origin)
             if j is None or j[0] != n - 1:
                 raise tlc.MachineryError('ObserveTrace rejects event %d (%s) of trace %d but the harness sees %r' % (n - 1, clause, tid, j))
-            ctx.violation(j[1], '%s [ObserveTrace clause %s]' % (j[2], clause), dict(kind=kind, good=good, ops=ops), module=MODULE)
-    accepted_but_judged = [tid + 1 for tid, (k, g, _, ev) in enumerate(traces) if judge(k, g, ev) and (tid + 1) not in rejected]
+            ctx.violation(j[1], '%s [ObserveTrace clause %s]' % (j[2], clause), dict(kind=kind, good=good, ops=ops, origin=origin, flavour=flavour), module=MODULE)
+    accepted_but_judged = [tid + 1 for tid, t in enumerate(traces) if judge(t[0], t[1], t[3], t[4]) and (tid + 1) not in rejected]
     if accepted_but_judged:
         raise tlc.MachineryError('ObserveTrace accepts traces the harness judges changed: %s' % accepted_but_judged[:5])
-    ctx.count(evaluations=n_random, traces=len(batch))
+    ctx.count(evaluations=runner.n - n_before, traces=len(batch))
     for (kind, op, exc), text in sorted(runner.raised.items()):
         ctx.drift('operation %s on a %s result raised %s' % (op, kind, text[:200]))
+    for (kind, origin), text in sorted(runner.unbuildable.items()):
+        ctx.drift('a %s result cannot be obtained the %r way by the harness: %s' % (kind, origin, text[:200]))
+    ctx.cov['skipped_in_band'] = runner.redundant
     ctx.cov['exhaustive'] = True
     ctx.cov['explanation'] = ('exhaustive for the operation sequences of the TLC configurations in tlc_runs; %d simulated behaviours of '
-                              'depth %d; %d random sequences; %d traces walked by ObserveTrace, %d rejected'
-                              % (nsimrun, depth, n_random, len(batch), len(rejected)))
+                              'depth %d; %d random sequences; %d traces walked by ObserveTrace, %d rejected; %d generated (kind, direct '
+                              'origin, sequence) states not executed because the directly constructed result is the very object graph of '
+                              'the evaluated one'
+                              % (nsimrun, depth, n_random, len(batch), len(rejected), runner.redundant))
